@@ -8,7 +8,7 @@ import numpy
 from hypothesis import strategies as st
 
 from pbt import files, lattice
-from pbt.core import call
+from pbt.core import call, draw_tz
 
 PROP = "C04"
 TECHNIQUE = "Hypothesis-generated catalogs x statement lists x application plans vs. list-comprehension reference filter; metamorphic relations (order, grouping, idempotence, datetime==origin_time, non-mutation); spatial filter vs. exact containment oracle"
@@ -211,10 +211,13 @@ def check_spatial(ctx, case):
         for via in ("arg", "bound", "arg_over_far", "arg_over_big"):
             bound_to = {"arg": None, "bound": region, "arg_over_far": other_far, "arg_over_big": other_big}[via]
             src = CSEPCatalog(data=list(events), region=bound_to)
-            o = call(lambda: src.filter_spatial(None if via == "bound" else region, in_place=in_place))
+            # update_stats (documented flag) on every other variant: same kept events
+            kw = {"update_stats": True} if (via in ("bound", "arg_over_far")) == in_place else {}
+            o = call(lambda: src.filter_spatial(None if via == "bound" else region, in_place=in_place, **kw))
             if not o.ok:
-                ctx.unexpected(o, "filter_spatial")
+                ctx.unexpected(o, "filter_spatial" + (":update_stats" if kw else ""))
                 continue
+            ctx.count("filter_spatial_calls" + (":update_stats" if kw else ""))
             got = [int(t) for t in o.value.get_epoch_times() if int(t) not in amb]
             if got != keep:
                 ctx.violation("filter_spatial_wrong" + (":region_argument_ignored" if via.startswith("arg_over") else ""),
@@ -289,7 +292,7 @@ def cases(draw, max_events=40):
             e[3] = x0 if fx == 0 else x0 + fx * L.fdh
             e[2] = y0 if fy == 0 else y0 + fy * L.fdh
         # thresholds on latitude / longitude were drawn from the old pools: keep them, they are still legitimate statements
-    return case
+    return draw_tz(draw, case)
 
 
 @st.composite
